@@ -5,7 +5,7 @@
 // process (environment VERIF_RACE_CHILD=1; the child never reaches main, see init below) with
 // GORACE="halt_on_error=0 exitcode=0 log_path=…".  The child stresses every supported public method of
 // UDPSession and Listener from many goroutines, over loopback UDP and over an in-memory PacketConn,
-// for the ciphers {nil, AES-CFB, salsa20, AES-GCM} × FEC {off, 3/1}, with several sessions sharing
+// for the ciphers {nil, AES-CFB, salsa20, AES-GCM, blowfish-CFB, twofish-CFB} × FEC {off, 3/1}, with several sessions sharing
 // one cipher object, the buffer pool, the entropy source and the SNMP counters.
 //
 // The parent parses the race detector's reports into (function, file:line) pairs, maps both sides to
@@ -194,6 +194,8 @@ func classify(r report, sf *sideFile, repo string) classification {
 	type side struct {
 		fr    frame
 		sites []site
+		all   []site  // sites on every library frame of the stack (outer frames pass references inward)
+		allFr []frame // the frame each entry of `all` came from
 	}
 	var sides []side
 	for _, a := range r.Acc {
@@ -202,15 +204,18 @@ func classify(r report, sf *sideFile, repo string) classification {
 			continue
 		}
 		// innermost library frame that the table knows; else the innermost library frame
-		chosen := kf[0]
-		var ss []site
+		sd := side{fr: kf[0]}
 		for _, f := range kf {
-			if s := idx[fmt.Sprintf("%s:%d", filepath.Base(f.File), f.Line)]; len(s) > 0 {
-				chosen, ss = f, s
-				break
+			s := idx[fmt.Sprintf("%s:%d", filepath.Base(f.File), f.Line)]
+			if len(s) > 0 && sd.sites == nil {
+				sd.fr, sd.sites = f, s
+			}
+			for _, x := range s {
+				sd.all = append(sd.all, x)
+				sd.allFr = append(sd.allFr, f)
 			}
 		}
-		sides = append(sides, side{chosen, ss})
+		sides = append(sides, sd)
 	}
 	desc := func() string {
 		var parts []string
@@ -234,27 +239,38 @@ func classify(r report, sf *sideFile, repo string) classification {
 		// one side in the library, the other in the harness or a dependency: the library side decides
 		sides = append(sides, sides[0])
 	}
-	// classes present on both sides
-	common := map[string]bool{}
-	for _, a := range sides[0].sites {
-		for _, b := range sides[1].sites {
-			if a.Class == b.Class {
-				common[a.Class] = true
+	unprot := map[string]bool{}
+	for _, u := range sf.Unprotected {
+		unprot[u] = true
+	}
+	// classes present on both sides: first at the innermost frames the table knows; if that does not
+	// explain the race (no common class, or only protected ones), on any library frame of the two stacks
+	// (the racing bytes may have been handed inward as an argument, e.g. blockCrypt.decbuf → decrypt8 → Encrypt)
+	var common map[string]bool
+	var bad []string
+	for stage := 0; stage < 2 && len(bad) == 0; stage++ {
+		common = map[string]bool{}
+		a, b := sides[0].sites, sides[1].sites
+		if stage == 1 {
+			a, b = sides[0].all, sides[1].all
+		}
+		for _, x := range a {
+			for _, y := range b {
+				if x.Class == y.Class {
+					common[x.Class] = true
+				}
 			}
 		}
-	}
-	if len(common) == 0 {
-		return classification{"race-table-mismatch", "no common location class in the access table for: " + desc()}
-	}
-	var bad []string
-	for c := range common {
-		for _, u := range sf.Unprotected {
-			if u == c {
+		for c := range common {
+			if unprot[c] {
 				bad = append(bad, c)
 			}
 		}
 	}
 	sort.Strings(bad)
+	if len(common) == 0 {
+		return classification{"race-table-mismatch", "no common location class in the access table for: " + desc()}
+	}
 	if len(bad) == 0 {
 		var cs []string
 		for c := range common {
@@ -264,19 +280,21 @@ func classify(r report, sf *sideFile, repo string) classification {
 		return classification{"race-table-mismatch", fmt.Sprintf("the table calls %v protected, the race detector disagrees: %s", cs, desc())}
 	}
 	cls := bad[0]
-	// the culprit is the side whose row holds fewer locks
-	culprit := sides[0]
-	lockLen := func(sd side) int {
-		n := 1 << 30
-		for _, s := range sd.sites {
+	// the culprit is the side whose row holds fewer locks; name the frame where the class is accessed
+	frameOf := func(sd side) (frame, int) {
+		best, n := sd.fr, 1<<30
+		for i, s := range sd.all {
 			if s.Class == cls && len(s.Locks) < n {
-				n = len(s.Locks)
+				n, best = len(s.Locks), sd.allFr[i]
 			}
 		}
-		return n
+		return best, n
 	}
-	if lockLen(sides[1]) < lockLen(sides[0]) || (lockLen(sides[1]) == lockLen(sides[0]) && shortFn(sides[1].fr.Fn) < shortFn(sides[0].fr.Fn)) {
-		culprit = sides[1]
+	f0, n0 := frameOf(sides[0])
+	f1, n1 := frameOf(sides[1])
+	culprit := side{fr: f0}
+	if n1 < n0 || (n1 == n0 && shortFn(f1.Fn) < shortFn(f0.Fn)) {
+		culprit = side{fr: f1}
 	}
 	return classification{"race:" + bare(shortFn(culprit.fr.Fn)) + "/" + cls, desc()}
 }
@@ -355,6 +373,11 @@ func Run(o *hx.Out, g *hx.Rng, tier string) {
 	}
 	reps := parseReports(text.String())
 	o.CountN("race-reports", len(reps))
+	type found struct {
+		c   classification
+		rep []string
+	}
+	var fs []found
 	seen := map[string]bool{}
 	for _, r := range reps {
 		c := classify(r, sf, repo)
@@ -367,7 +390,21 @@ func Run(o *hx.Out, g *hx.Rng, tier string) {
 		if len(rep) > 60 {
 			rep = rep[:60]
 		}
-		o.Violate(hx.Violation{Kind: c.kind, Detail: c.detail, Replay: append([]string{fmt.Sprintf("seed %d tier %s (schedule dependent); race detector report:", seed, tier)}, rep...)})
+		fs = append(fs, found{c, rep})
+	}
+	// stable order: genuine races first (by kind), then mismatches
+	sort.SliceStable(fs, func(i, j int) bool {
+		ri, rj := strings.HasPrefix(fs[i].c.kind, "race:"), strings.HasPrefix(fs[j].c.kind, "race:")
+		if ri != rj {
+			return ri
+		}
+		if fs[i].c.kind != fs[j].c.kind {
+			return fs[i].c.kind < fs[j].c.kind
+		}
+		return fs[i].c.detail < fs[j].c.detail
+	})
+	for _, f := range fs {
+		o.Violate(hx.Violation{Kind: f.c.kind, Detail: f.c.detail, Replay: append([]string{fmt.Sprintf("seed %d tier %s (schedule dependent); race detector report:", seed, tier)}, f.rep...)})
 	}
 	o.Note(fmt.Sprintf("child wall %.1fs, %d race report(s), table: %d sites, unprotected classes %v", wall.Seconds(), len(reps), len(sf.Sites), sf.Unprotected))
 }
